@@ -191,7 +191,8 @@ class LFUCache(Cache[_KT, _VT]):
         Iterates over keys of the cache. From the least frequently used to the most frequently used.
 
         """
-        return (d.key for d in self.list)
+        # snapshot of keys, because the mapping views obtain values through __getitem__ which reorders the list
+        return iter([d.key for d in self.list])
 
     def __setitem__(self, k: _KT, v: _VT):
         """
